@@ -21,6 +21,25 @@ Ltac test_step :=
   | |- context [N.eqb ?a ?b] => destruct (N.eqb_spec a b); try (exfalso; lia)
   end.
 
+(* decide the boolean tests of the goal one by one with lia (true, else false); a test that depends on the
+   value is split *)
+Ltac decide_tests :=
+  repeat (cbn [andb orb];
+          match goal with
+          | |- context [N.ltb ?a ?b] =>
+            first [ replace (N.ltb a b) with true by (symmetry; apply N.ltb_lt; lia)
+                  | replace (N.ltb a b) with false by (symmetry; apply N.ltb_ge; lia)
+                  | destruct (N.ltb_spec a b) ]
+          | |- context [N.leb ?a ?b] =>
+            first [ replace (N.leb a b) with true by (symmetry; apply N.leb_le; lia)
+                  | replace (N.leb a b) with false by (symmetry; apply N.leb_gt; lia)
+                  | destruct (N.leb_spec a b) ]
+          | |- context [N.eqb ?a ?b] =>
+            first [ replace (N.eqb a b) with true by (symmetry; apply N.eqb_eq; lia)
+                  | replace (N.eqb a b) with false by (symmetry; apply N.eqb_neq; lia)
+                  | destruct (N.eqb_spec a b) ]
+          end).
+
 (* destruct every `if` of the goal without looking at its condition *)
 Ltac split_ifs :=
   repeat match goal with
@@ -35,10 +54,9 @@ Import Utf8.
 
 Lemma dec1_enc c rest : scalar c -> dec1 (enc c ++ rest) = Got c rest.
 Proof.
-  intros Hc. unfold enc.
+  intros Hc. unfold scalar in Hc. unfold enc.
   destruct (N.ltb_spec c 0x80); [|destruct (N.ltb_spec c 0x800); [|destruct (N.ltb_spec c 0x10000)]];
-    unfold dec1, second_ok, cont; cbn [app andb]; repeat (test_step; cbn [andb]);
-    try (f_equal; lia); destruct Hc; exfalso; lia.
+    unfold dec1, second_ok, cont; cbn [app]; decide_tests; cbn [andb orb]; first [f_equal; lia | exfalso; lia].
 Qed.
 
 Lemma parse1_enc c rest : scalar c -> parse1 (enc c ++ rest) = Some (c, rest).
@@ -59,7 +77,8 @@ Qed.
 
 Lemma dec1_progress buf c rest : dec1 buf = Got c rest -> (length rest < length buf)%nat.
 Proof.
-  destruct buf as [|b0 [|b1 [|b2 [|b3 r]]]]; unfold dec1; split_ifs; intros H; inversion H; subst; cbn [length]; lia.
+  destruct buf as [|b0 [|b1 [|b2 [|b3 r]]]]; unfold dec1; split_ifs; intros H; try discriminate H;
+    match type of H with Got _ ?r = _ => assert (rest = r) by congruence; subst rest end; cbn [length]; lia.
 Qed.
 
 Lemma parse1_progress buf u rest : parse1 buf = Some (u, rest) -> (length rest < length buf)%nat.
